@@ -31,6 +31,7 @@ import (
 	"sort"
 	"strings"
 	"sync"
+	"sync/atomic"
 	"syscall"
 	"testing"
 
@@ -214,7 +215,9 @@ func (g *gen) maxLen(name string) (int, bool) {
 
 var boundary64 = []uint64{0, 1, 2, 0x7f, 0x80, 0xff, 0x100, 0x3fff, 0x4000, 0xffff, 0x10000, 0x1fffff, 0x200000, 0xffffff, 0x1000000,
 	0xfffffff, 0x10000000, 0xffffffff, 0x100000000, 0x7ffffffff, 0x800000000, 0x3ffffffffff, 0x40000000000, 0x1ffffffffffff, 0x2000000000000,
-	0xffffffffffffff, 0x100000000000000, 0x7fffffffffffffff, 0x8000000000000000, 0xffffffffffffffff}
+	0xffffffffffffff, 0x100000000000000, 0x7fffffffffffffff, 0x8000000000000000, 0xffffffffffffffff,
+	// multi-octet naturals whose prefix octet carries value bits (c1 05 00, e1 05 00 00, f1 07 00 00 00, ...)
+	65541, 1<<24 + 5, 1<<32 + 7, 1<<41 + 9, 1<<50 + 11, 0x1f0005, 0x0f000005}
 
 func (g *gen) uint(bits int) uint64 {
 	var x uint64
@@ -371,6 +374,14 @@ func (g *gen) value(t reflect.Type, bud int, field string) reflect.Value {
 				k = reflect.ValueOf(string(kb)).Convert(t.Key())
 			} else {
 				k = g.value(t.Key(), 0, "")
+				if t.Key().Kind() == reflect.Struct && i > 0 && (g.mode == 2 || g.r.Bool()) {
+					// same leading fields (same hash), another last field (another length)
+					prev := m.MapKeys()[0]
+					nf := t.Key().NumField()
+					k = reflect.New(t.Key()).Elem()
+					k.Set(prev)
+					k.Field(nf - 1).Set(g.value(t.Key().Field(nf-1).Type, 0, ""))
+				}
 				if t.Key().Kind() == reflect.Uint32 && g.r.Bool() { // ids whose numeric order differs from their byte order
 					k.SetUint(uint64([]uint32{1, 255, 256, 257, 65536, 0x01000000, 0xff, 0xff00}[g.r.N(8)]))
 				}
@@ -522,6 +533,28 @@ func exactEntry(p any) bool {
 	return ok
 }
 
+// Values whose encoding is REFUSED after part of it has been written (shapes the encoder rejects: an import spec
+// without a segment map, a wrong fixed length).  They are encoded on the same encoder objects as the good values,
+// in between them: a refusal must leave nothing behind in a reused / pooled encoder.
+func poisonValues() []any {
+	one := make([]types.EpochMarkValidatorKeys, 1)
+	return []any{
+		&types.WorkItem{Service: 7, Payload: types.ByteSequence{1, 2, 3}, ImportSegments: []types.ImportSpec{{Index: 1}}},
+		&types.EpochMark{Validators: one},
+		&types.Verdict{Age: 9, Votes: []types.Judgement{{Vote: true}}},
+		&types.TicketsOrKeys{Tickets: []types.TicketBody{{Attempt: 1}}},
+		&types.Header{Slot: 5, EpochMark: &types.EpochMark{Validators: one}},
+	}
+}
+
+// poison runs a refused encoding on e (no segment map installed) and reports whether it was refused
+func poison(e *types.Encoder, k int) bool {
+	ps := poisonValues()
+	e.SetHashSegmentMap(nil)
+	_, err := e.Encode(ps[k%len(ps)])
+	return err != nil
+}
+
 // decode returns (consumed, err); consumed = -1 when the entry point does not report it
 func decode(ty string, in []byte, p any) (int, error) {
 	switch x := p.(type) {
@@ -611,6 +644,7 @@ func TestRun(t *testing.T) {
 }
 
 func runRT(out *outw) {
+	var refused int64
 	seed := uint64(vfd.EnvInt("VF_SEED", 1))
 	n := vfd.EnvInt("VF_N", 20)
 	budgetBytes := vfd.EnvInt("VF_BYTES_PER_TYPE", 60000)
@@ -657,9 +691,14 @@ func runRT(out *outw) {
 	const W = 8
 	for base := 0; base < len(order); base += W {
 		grp := order[base:min(base+W, len(order))]
-		// fresh encoder, original value and two rebuilt copies
-		for _, ix := range grp {
+		// fresh encoder, original value and two rebuilt copies; and one encoder object reused after a refused encoding
+		for gi, ix := range grp {
 			it := items[ix]
+			e := types.NewEncoder()
+			if poison(e, base+gi) {
+				refused++
+			}
+			it.add(encodeWith(e, it.ty, it.ptr.Interface()))
 			it.add(encodeFresh(it.ty, it.ptr.Interface()))
 			it.add(encodeFresh(it.ty, it.alts[0].Interface()))
 			it.add(encodeFresh(it.ty, it.alts[1].Interface()))
@@ -674,8 +713,20 @@ func runRT(out *outw) {
 			go func(gi int, it *item) {
 				defer wg.Done()
 				<-start
-				for _, q := range []reflect.Value{it.ptr, it.alts[2], it.alts[3], it.ptr} {
-					b, err := encodePooled(it.ty, q.Interface())
+				for k, q := range []reflect.Value{it.ptr, it.alts[2], it.alts[3], it.ptr} {
+					// a refused encoding on a pooled encoder: handed back to the pool (k even: whoever draws it next
+					// encodes a good value with it) or reused at once by this goroutine (k odd)
+					e := types.GetEncoder()
+					if poison(e, gi+k) {
+						atomic.AddInt64(&refused, 1)
+					}
+					if k%2 == 0 {
+						types.PutEncoder(e)
+						runtime.Gosched()
+						e = types.GetEncoder()
+					}
+					b, err := encodeWith(e, it.ty, q.Interface())
+					types.PutEncoder(e)
 					res[gi] = append(res[gi], b)
 					rerr[gi] = append(rerr[gi], err)
 					runtime.Gosched()
@@ -691,7 +742,7 @@ func runRT(out *outw) {
 		}
 	}
 	for _, it := range items {
-		rec := map[string]any{"op": "rt", "ty": it.ty, "v": toTree(it.ptr.Elem()), "nenc": 7, "encerr": strings.Join(it.errs, "; ")}
+		rec := map[string]any{"op": "rt", "ty": it.ty, "v": toTree(it.ptr.Elem()), "nenc": 8, "refused_between": refused, "encerr": strings.Join(it.errs, "; ")}
 		encs := make([]any, len(it.encs))
 		for i, b := range it.encs {
 			encs[i] = vfd.B(b)
